@@ -183,7 +183,7 @@ def _initial_tree(rng, cfg):
     kind = rng.choices(kinds, weights=[tw[k] for k in kinds])[0]
     tree = {}
     tags = [kind]
-    if kind in ("semsoup", "graph", "worldb"):
+    if kind in ("semsoup", "graph", "worldb", "grammar"):
         from worlda import soup
         entries = []
         nproj = rng.randint(1, 2)
@@ -192,6 +192,8 @@ def _initial_tree(rng, cfg):
                 files, entry, t = soup.semantic_soup(rng)
             elif kind == "graph":
                 files, entry, t = soup.valid_import_graph(rng)
+            elif kind == "grammar":
+                files, entry, t = soup.grammar_derivation(rng)
             else:
                 files, entry, t = workload.worldb_module(rng)
             tags.extend(t)
@@ -308,6 +310,9 @@ def gen_ops(rng, cfg):
                   "fresh_oracle": rng.random() < cfg.get("fresh_oracle_rate", 0.2)}
             if mode == "split":
                 op["w2"] = rng.randrange(len(workers))
+            if mode == "embossc" and rng.random() < cfg.get("cold_rate", 0.0):
+                # a true, cold `embossc` process: its own interpreter start-up, address-space layout and hash seed
+                op["cold"] = rng.randrange(1, 1 << 16)
             if mode == "lib":
                 if rng.random() < cfg["race_rate"] and files:
                     victim = rng.choice(files)
@@ -576,6 +581,33 @@ class Farm:
                         res["header"] = open(hp, encoding="utf-8").read()
         finally:
             shutil.rmtree(outabs, ignore_errors=True)
+        return res
+
+    def run_cold(self, op):
+        """Runs the job as a real `embossc` command-line process (no zygote, no warm state)."""
+        self.build_no += 1
+        outabs = os.path.join(self.rundir, f"out{self.build_no}")
+        os.makedirs(outabs, exist_ok=True)
+        env = dict(os.environ, PYTHONHASHSEED=str(op["cold"]), PYTHONPYCACHEPREFIX="/dev/shm/emboss-verif-pycache", PYTHONUTF8="1")
+        env.pop("PYTHONPATH", None)
+        res = {"family": "cli", "exc": None, "header": None, "ir_json": None, "stdout": "", "stderr": "", "how": "cold"}
+        try:
+            try:
+                r = subprocess.run([core.PYTHON, os.path.join(core.REPO, "embossc")] + self._cli_args(op, outabs)
+                                   + ["--output-path", outabs, "--output-file", "out.h", op["entry"]],
+                                   cwd=self.root, env=env, capture_output=True, text=True, timeout=HARD_WALL_S)
+            except subprocess.TimeoutExpired:
+                raise core.HarnessError("cold embossc process did not finish within the hard wall limit")
+            res.update(exit=r.returncode, stdout=r.stdout, stderr=r.stderr)
+            if "Traceback (most recent call last)" in r.stderr:
+                last = r.stderr.strip().splitlines()[-1]
+                res.update(exc=last.split(":")[0].strip() or "Exception", tb=r.stderr[-4000:], frame=None)
+            hp = os.path.join(outabs, "out.h")
+            if os.path.exists(hp):
+                res["header"] = open(hp, encoding="utf-8").read()
+        finally:
+            shutil.rmtree(outabs, ignore_errors=True)
+        self.count("probe.cold_cli_sample")
         return res
 
     def run_lib(self, worker, op, c18=False):
@@ -878,8 +910,12 @@ class Farm:
                         self.count("probe.split_front_and_back_on_different_workers")
                         if w2.hashseed != w.hashseed:
                             self.count("probe.split_pipeline_across_hash_seeds")
-                res = self.run_cli_family(w, op, worker2=w2, as_split=op["mode"] == "split")
-                res["how"] = op["mode"]
+                if op.get("cold"):
+                    res = self.run_cold(op)
+                    warm = False
+                else:
+                    res = self.run_cli_family(w, op, worker2=w2, as_split=op["mode"] == "split")
+                    res["how"] = op["mode"]
         except WorkerTimeout:
             self.fail("C16", "does_not_terminate", [op["mode"]], {"entry": op["entry"], "cap_s": JOB_TIMEOUT_S}, i)
             self._spawn(k, w.hashseed)
